@@ -272,6 +272,16 @@ fn check_text_generic(acc: &mut Acc, sub: &str, rank: u64, text: &[u8], po: &PO)
         }
         let mut flat = Vec::new();
         flatten(d.as_ref(), "root".into(), &mut flat);
+        // the spans reported by a copy of the datum (clone, owned copy of the root reference) are
+        // the spans of the datum
+        if src == "slice" {
+            let copies: [(&'static str, lexpr::datum::Datum); 2] = [("clone", d.clone()), ("owned-from-ref", lexpr::datum::Datum::from(d.as_ref()))];
+            for (cname, c) in copies {
+                let mut cf = Vec::new();
+                flatten(c.as_ref(), "root".into(), &mut cf);
+                trees.push((cname, cf));
+            }
+        }
         trees.push((src, flat));
     }
     if let Some((s0, t0)) = trees.first() {
